@@ -1,2 +1,13 @@
-import Adsg.Proofs.Closure
-#print axioms Adsg.mem_closure_iff_reach
+import Adsg.Props.C15
+#print axioms Adsg.C15.fix_sandwich
+#print axioms Adsg.C15.inactive_rows
+#print axioms Adsg.C15.restrict_exact
+#print axioms Adsg.C15.restrict_sublist
+#print axioms Adsg.C15.restrict_nil
+#print axioms Adsg.C15.restrict_perm
+#print axioms Adsg.C15.setFixed_get
+#print axioms Adsg.C15.fix_then_free
+#print axioms Adsg.C15.fix_free_history
+#print axioms Adsg.C15.all_freed_restores
+#print axioms Adsg.C15.fix_rejects
+#print axioms Adsg.C15.decode_in_restricted
